@@ -451,3 +451,10 @@ mod tests {
   }
 }
 
+
+// Verification hook (see /verif): public access to the text of the systemd unit. Compiled only
+// with `--cfg ellbur_totalmapper_verif`; adds no behaviour otherwise.
+#[cfg(ellbur_totalmapper_verif)]
+pub fn verif_build_service_text(excludes: &[&str]) -> String {
+  build_service_text(excludes.iter().map(|s| *s))
+}
